@@ -54,7 +54,7 @@ def run_pipeline(spec: Dict[str, Any]) -> Dict[str, Any]:
     holder: Dict[str, Any] = {}
 
     def on_next(v):
-        if isinstance(v, Observable):
+        if isinstance(v, Observable) and not spec.get("ignore_groups"):
             g = len(groups) + 1
             groups.append(v)
             ctx.ev(e="gout", g=g)
@@ -68,9 +68,21 @@ def run_pipeline(spec: Dict[str, Any]) -> Dict[str, Any]:
         else:
             ctx.ev(e="sink", k="N", v=_show(v))
 
+    class SinkRaise(Exception):
+        """the subscriber's own terminal callback raises (its exception is the subscriber's business; release is not)"""
+
+    def on_error(e):
+        ctx.ev(e="sink", k="E", err=type(e).__name__)
+        if spec.get("sink_raise"):
+            raise SinkRaise()
+
+    def on_completed():
+        ctx.ev(e="sink", k="C")
+        if spec.get("sink_raise"):
+            raise SinkRaise()
+
     def subscribe(_s=None, _st=None):
-        holder["d"] = ys.subscribe(on_next=on_next, on_error=lambda e: ctx.ev(e="sink", k="E", err=type(e).__name__),
-                                   on_completed=lambda: ctx.ev(e="sink", k="C"), scheduler=s)
+        holder["d"] = ys.subscribe(on_next=on_next, on_error=on_error, on_completed=on_completed, scheduler=s)
 
     def dispose(_s=None, _st=None):
         if "d" in holder:
@@ -94,6 +106,8 @@ def run_pipeline(spec: Dict[str, Any]) -> Dict[str, Any]:
             try:
                 s.advance_to(HORIZON)
                 break
+            except SinkRaise:
+                continue                    # the subscriber's own exception came back out of the scheduler: go on
             except cat.Fault:
                 ctx.ev(e="escape")          # an injected callback exception propagated into the emitter / scheduler
             except Exception as e:           # not ours: the catalogue fed the operator something it cannot take
@@ -245,9 +259,26 @@ def specs_depth(seed: int, n: int, depth: int, **dims) -> List[Dict[str, Any]]:
     out = []
     for _ in range(n):
         names = [rnd.choice(firsts)] + [rnd.choice(cat.SAFE_SECOND) for _ in range(depth - 1)]
+        if dims.get("early") and rnd.random() < 0.6:
+            names[-1] = rnd.choice(["take", "first", "take_while", "element_at", "take_until", "some", "is_empty"])
         if any("multi" in cat.CATALOGUE[x][2] for x in names[:-1]):
             pass
         out.append(dict(seed=rnd.randrange(10 ** 9), names=names, hot=rnd.random() < 0.5, **_dims(rnd, dims)))
+    return out
+
+
+def specs_groups_early(seed: int, per_combo: int, **dims) -> List[Dict[str, Any]]:
+    """window/group operators followed by an early-terminating consumer; the subscriber either subscribes to the
+    windows/groups handed to it or ignores them (then nothing but the pipeline itself may hold a source)"""
+    rnd = random.Random(seed * 13 + 5)
+    outs = sorted(n for n, (k, b, f) in cat.CATALOGUE.items() if "obs_out" in f)
+    early = ["take", "first", "take_while", "element_at", "take_until", "is_empty"]
+    out = []
+    for n in outs:
+        for e in early:
+            for _ in range(per_combo):
+                out.append(dict(seed=rnd.randrange(10 ** 9), names=[n, e], hot=rnd.random() < 0.5,
+                                ignore_groups=rnd.random() < 0.6, **_dims(rnd, dims)))
     return out
 
 
@@ -260,6 +291,8 @@ def _dims(rnd, dims):
         d["fault_at"] = rnd.choice([1, 1, 2, 3])
     if dims.get("junk"):
         d["junk"] = rnd.choice([1, 2, 3, 4])
+    if dims.get("sink_raise"):
+        d["sink_raise"] = True
     return d
 
 
